@@ -13,12 +13,14 @@ from harness.core import enc_val, exc_name
 # --------------------------------------------------------------------------------------
 # value universe
 # --------------------------------------------------------------------------------------
-INTS = [0, 1, 2, 3, -1, -2]
-IFLOATS = [0.0, 1.0, 2.0, -1.0, -2.0]
+INTS = [0, 1, 2, 3, -1, -2, 2 ** 53, 2 ** 53 + 1, 2 ** 63 - 1]   # incl. integers no double represents exactly
+IFLOATS = [0.0, 1.0, 2.0, -1.0, -2.0, 9007199254740992.0]   # 2.0**53: equal to the int 2**53, NOT to 2**53 + 1
 FLOATS = [0.5, 2.5, -0.5, 1e-9 + 1.0, 1e-10, 5e-10, 1.0 + 3e-10]   # incl. values within 1e-9 of 0 and of 1
 BOOLS = [True, False]
 STRS = ["a", "b", "ab", "1", ""]
-LISTS = [[], [1], [1, 2], [1.0], ["a"], [True], [[1]], [1, "a"], [None]]
+LISTS = [[], [1], [1, 2], [1.0], ["a"], [True], [[1]], [1, "a"], [None],
+         # mappings inside lists, the same mapping in two key orders
+         [{"k": 1, "m": 2}], [{"m": 2, "k": 1}], [1, {"k": [1, {"z": 0, "y": 1}]}], [1, {"k": [1, {"y": 1, "z": 0}]}]]
 SCALARS = INTS + IFLOATS + FLOATS + BOOLS + [None] + STRS
 SP_KEYS = ["a", "b"]
 DOC_KEYS = ["a", "d"]
